@@ -258,6 +258,11 @@ func (p *PacketOut) MarshalBinary() (data []byte, err error) {
 	n += 4
 	binary.BigEndian.PutUint32(data[n:], p.InPort)
 	n += 4
+	var actionsLen uint16
+	for _, a := range p.Actions {
+		actionsLen += a.Len()
+	}
+	p.ActionsLen = actionsLen
 	binary.BigEndian.PutUint16(data[n:], p.ActionsLen)
 	n += 2
 	n += 6 // for pad
